@@ -35,7 +35,7 @@ HOSTS = [
     ("[FE80::A]", "[fe80::a]", "fe80::a", "[fe80::a]", "fe80::a"),
     ("xn--nxasmq6b.com", "xn--nxasmq6b.com", "xn--nxasmq6b.com", "xn--nxasmq6b.com", "xn--nxasmq6b.com"),
 ]
-PATHS = ["", "/", "/a/b", "/a b", "/a/../b/./c", "/%7euser/%zz", "/caf\u00e9"]
+PATHS = ["", "/", "/a/b", "/a b", "/a/../b/./c", "/%7euser/%zz", "/caf\u00e9", "//a//b"]
 QUERIES = [None, "q=1&r=2", "a b=\u20ac", ""]
 SCHEMES = {"http": ["http", "HTTP"], "https": ["https", "HttpS"]}
 
@@ -255,7 +255,7 @@ def JOBS(tier):
     for scheme in ("http", "https"):
         for proxy in (False, True):
             for hosts in ([[0, 1, 2], [3, 4], [5, 6, 7]]):
-                part = {"scheme": scheme, "proxy": proxy, "hosts": hosts, "paths": [0, 1, 3, 4, 5] if quick else list(range(len(PATHS)))}
+                part = {"scheme": scheme, "proxy": proxy, "hosts": hosts, "paths": [0, 1, 3, 4, 5, 7] if quick else list(range(len(PATHS)))}
                 part["n"] = space_size(dims_of(part))
                 jobs.append({"func": "c15_wire", "timeout": t, "path_timeout": 60, "samples": 1, "part": part})
     return jobs
